@@ -51,5 +51,19 @@ check("sqrt(a+b) != sqrt(a)+sqrt(b)", eq((Expr.symbol("a") + Expr.symbol("b")).p
 # 7. unused binder multiplies by the extent
 k = fresh("k")
 check("Σ_k c == n·c", eq(Expr.symbol("c").sum_over(k, "n"), Expr.symbol("c") * Expr.symbol("n")), True)
+# 6. the interpreter: a conditional accumulation inside a summarised loop stays conditional (fixtures::cond_sum)
+try:
+    from mtsa.fixtures import fixture_facts
+    from mtsa.kern.interp import Interp, Arr, Num
+    _f = fixture_facts()
+    _xs = Arr(("N",), lambda i_: Num(Expr.leaf("x", i_)), name="xs")
+    _ms = Arr(("N",), lambda i_: Num(Expr.leaf("m", i_)), name="ms")
+    _p = [k_ for k_ in _f.thir if k_.endswith("cond_sum")][0]
+    _r = Interp(_f).run_fn(_p, [_xs, _ms])
+    _i = fresh("i")
+    check("conditional accumulation is not the unconditional sum", _r.expr == Expr.leaf("x", _i).sum_over(_i, "N"), False)
+    check("conditional accumulation keeps its condition", "ite(" in _r.expr.key() and "m[" in _r.expr.key(), True)
+except Exception as _e:      # fail closed
+    check("conditional accumulation (engine self-test ran): %s" % _e, False, True)
 print("%d failures" % len(fails))
 sys.exit(1 if fails else 0)
